@@ -5,6 +5,7 @@ import (
 	"encoding/hex"
 	"fmt"
 	"math/rand"
+	"os"
 	"regexp"
 	"runtime"
 	"sort"
@@ -214,6 +215,12 @@ func (s *Sim) finish(before map[string]string) {
 		synctest.Wait()
 	}
 	s.releaseContexts()
+	if os.Getenv("SIM_DUMPWIRE") != "" {
+		for _, p := range s.conns {
+			fmt.Printf("WIRE %s c>s %q\n", p.tag, string(p.c2s.wrote))
+			fmt.Printf("WIRE %s s>c %q\n", p.tag, string(p.s2c.wrote))
+		}
+	}
 	for _, p := range s.K.Panics {
 		s.viols = append(s.viols, Violation{Prop: "C05", Sig: "C05|panic|library-goroutine|" + firstLine(p), RPC: -1, Text: "a goroutine started by the library panicked (the process would have died): " + p})
 	}
